@@ -168,3 +168,11 @@ Theorem C19_code_spacemap_sparse_first_is_the_model : forall f parameters dense 
   = spacemap f (map (index_in parameters) dense) (map (index_in parameters) sparse) false args.
 Proof. exact gen_spacemap_sparse_first_is_model. Qed.
 Print Assumptions C19_code_spacemap_sparse_first_is_the_model.
+
+(* ---- the regenerated wrappers (Gen/FunctoolsGen.v) ARE the model the theorems above are about ------ *)
+From LCM Require Import Gen.FunctoolsGen Proofs.C19_FunctoolsGen.
+Theorem C19_code_wrappers_are_the_model : forall (V : Type) s f args kw,
+  gen_allow_only_kwargs V s f args kw = allow_only_kwargs s f args kw /\
+  gen_allow_args V s f args kw = allow_args s f args kw.
+Proof. intros. split; [apply gen_allow_only_kwargs_is_model|apply gen_allow_args_is_model]. Qed.
+Print Assumptions C19_code_wrappers_are_the_model.
